@@ -1,5 +1,24 @@
+import Bmc.Proofs.C09
+import Bmc.Proofs.GenLoops.BuildAndSend
 import Bmc.Proofs.GenLoops.BuildAndSendCommand
+import Bmc.Proofs.EndToEnd.SessionC09
+import Bmc.Proofs.EndToEnd.SessionlessC09
+#print axioms Bmc.Proofs.C09.command_seqs
+#print axioms Bmc.Proofs.C09.serialise_failure_consumes_nothing
+#print axioms Bmc.Proofs.C09.history_seqs
+#print axioms Bmc.Proofs.C09.history_strictly_increasing
+#print axioms Bmc.Proofs.C09.history_no_reuse
+#print axioms Bmc.Proofs.C09.sessionless_null
+#print axioms Bmc.Proofs.C09.sessionless_all_null
+#print axioms Bmc.Proofs.C09.sequence_counter_writers
+#print axioms Bmc.Proofs.GenLoops.V2Session_buildAndSend_gen_eq
+#print axioms Bmc.Proofs.GenLoops.V2Session_buildAndSend_events_eq
+#print axioms Bmc.Proofs.GenLoops.V2Session_buildAndSend_expired_context
+#print axioms Bmc.Proofs.GenLoops.V2Session_SendCommand_gen_eq
+#print axioms Bmc.Proofs.GenLoops.V2Session_SendCommand_events_eq
 #print axioms Bmc.Proofs.GenLoops.V2Sessionless_buildAndSendCommand_gen_eq
 #print axioms Bmc.Proofs.GenLoops.V2Sessionless_buildAndSendCommand_events_eq
 #print axioms Bmc.Proofs.GenLoops.V2Sessionless_SendCommand_gen_eq
 #print axioms Bmc.Proofs.GenLoops.V2Sessionless_SendCommand_events_eq
+#print axioms Bmc.Proofs.EndToEnd.generated_loop_sequence_numbers
+#print axioms Bmc.Proofs.EndToEnd.generated_sessionless_loop_null_session
